@@ -11,7 +11,8 @@ run_one() { # patch prop expect(fail|pass)
   D=/root/scratch-selftest-$$-$RANDOM; rm -rf $D; mkdir -p $D; rsync -a --exclude .git /repo/ $D/
   (cd $D && patch -p1 -s < $1) || { echo "SELFTEST $1: patch does not apply"; rm -rf $D; return 2; }
   (cd $D && go build ./... >/dev/null 2>&1) || { echo "SELFTEST $1: does not compile"; rm -rf $D; return 2; }
-  out=$(GOVC_CONTRACTS=mirror $V/bin/govc check -p $2 -repo $D -verif $V 2>&1 | grep -E "^VIOLATION|^govc:")
+  FF=0; [ "$3" = fail ] && FF=1
+  out=$(GOVC_FAIL_FAST=$FF GOVC_CONTRACTS=mirror $V/bin/govc check -p $2 -repo $D -verif $V 2>&1 | grep -E "^VIOLATION|^govc:")
   rm -rf $D
   nviol=$(echo "$out" | grep -c "^VIOLATION")
   if [ "$3" = fail ] && [ $nviol -eq 0 ]; then echo "SELFTEST MISSED  $1 ($2)"; return 1; fi
